@@ -1348,6 +1348,14 @@ def _trim_start_matches(ex, c, a, dt):
     s = as_str(a[0]); p = as_str(a[1])
     while p and s.startswith(p): s = s[len(p):]
     return strref(s)
+@native(('str', 'trim_matches'))
+def _trim_matches(ex, c, a, dt):
+    s = as_str(a[0]); p = deref(a[1])
+    if isinstance(p, int): p = chr(p)
+    p = as_str(p) if not isinstance(p, str) else p
+    if len(p) != 1:
+        raise Unsupported('trim_matches with a non-char pattern')
+    return strref(s.strip(p))
 @native(('str', 'strip_prefix'), ('str', 'strip_suffix'))
 def _strip_prefix(ex, c, a, dt):
     s = as_str(a[0]); p = as_str(a[1])
@@ -1411,6 +1419,14 @@ def display(ex, v):
     if is_sym(d):
         s = z3.simplify(d)
         if z3.is_bv_value(s): return str(s.as_long())
+        nd = getattr(ex.ctx, 'sym_digits', None)
+        if nd and z3.is_bv(d):
+            # the decimal text of an unsigned symbolic integer: split on its number of digits (solver-decided); the digits
+            # themselves are written as the placeholder '7' (harnesses that enable this only depend on the width).
+            # the harness has assumed d < 10**nd
+            for k in range(1, nd + 1):
+                if k == nd or ex.ctx.branch(z3.ULT(d, z3.BitVecVal(10 ** k, d.size()))):
+                    return '7' * k
         raise Unsupported('Display of symbolic integer')
     if type(d) is Struct:
         h = d.ty.split('::')[-1]
@@ -1442,10 +1458,36 @@ def _args_new(ex, c, a, dt):
                     break
                 if b < 0x80:
                     out.append(tpl[i:i + b].decode('utf8', 'replace')); i += b
+                elif b == 0x80:
+                    n_ = tpl[i] | (tpl[i + 1] << 8); i += 2
+                    out.append(tpl[i:i + n_].decode('utf8', 'replace')); i += n_
                 else:
+                    # placeholder: optional flags (u32), width (u16), precision (u16), arg_index (u16), little endian
+                    flags, width, prec = ord(' ') | (3 << 29), None, None
+                    if b & 1: flags = int.from_bytes(tpl[i:i + 4], 'little'); i += 4
+                    if b & 2: width = int.from_bytes(tpl[i:i + 2], 'little'); i += 2
+                    if b & 4: prec = int.from_bytes(tpl[i:i + 2], 'little'); i += 2
+                    if b & 8: k = int.from_bytes(tpl[i:i + 2], 'little'); i += 2
+                    if b & 16: width = concrete_int(ex, deref(argv[width].data)) if type(argv[width]) is Opaque else None
+                    if b & 32: prec = concrete_int(ex, deref(argv[prec].data)) if type(argv[prec]) is Opaque else None
                     arg = argv[k] if k < len(argv) else None
                     k += 1
-                    out.append(arg.data if type(arg) is Opaque and isinstance(arg.data, str) else '<arg>')
+                    txt = arg.data if type(arg) is Opaque and isinstance(arg.data, str) else '<arg>'
+                    numeric = getattr(arg, 'numeric', False) if arg is not None else False
+                    if prec is not None and not numeric:
+                        txt = txt[:prec]
+                    if width is not None and len(txt) < width:
+                        fill = chr(flags & 0x1FFFFF)
+                        align = (flags >> 29) & 3
+                        if align == 3:
+                            align = 1 if numeric else 0
+                        pad = width - len(txt)
+                        if numeric and (flags & (1 << 24)):
+                            txt = '0' * pad + txt
+                        elif align == 0: txt = txt + fill * pad
+                        elif align == 1: txt = fill * pad + txt
+                        else: txt = fill * (pad // 2) + txt + fill * (pad - pad // 2)
+                    out.append(txt)
             return Opaque('Arguments', ''.join(out))
         pieces = [as_str(x.v) for x in items(a[0])]
         if c.method == 'new_const' or len(a) < 2:
@@ -1466,7 +1508,10 @@ def _args_new(ex, c, a, dt):
 def _arg_new(ex, c, a, dt):
     if c.method == 'new_display':
         try:
-            return Opaque('Argument', display(ex, a[0]))
+            r = Opaque('Argument', display(ex, a[0]))
+            d0 = deref(a[0])
+            r.numeric = (isinstance(d0, int) and not isinstance(d0, bool)) or (is_sym(d0) and z3.is_bv(d0))
+            return r
         except Unsupported:
             return Opaque('Argument', '<disp>')
     return Opaque('Argument', debug_str(a[0]))
